@@ -486,6 +486,16 @@ def step_body(rng, sess, user, st):
     if kind == "pkc":
         return MSG_USERAUTH_REQUEST, make_cell_pk(rng, sess.att.att.session_id, user, st[1], st[2], st[3], st[4], st[5],
                                                   quick=getattr(sess, "quick", True))
+    if kind == "pkr":
+        # round 5: after a key re-exchange that completed before authentication.  "session_id": signed over the
+        # true session identifier (the FIRST exchange hash); "latest_H": the same request signed over the exchange
+        # hash of the latest key exchange instead; "garbage".  Blob built by authkit.session_blob (struct only).
+        tool = sess.att.att
+        which = st[4]
+        if which == "garbage":
+            return MSG_USERAUTH_REQUEST, make_cell_pk(rng, tool.session_id, user, st[1], st[2], st[3], "garbage", "base")
+        ident = bytes(tool.session_id) if which == "session_id" else bytes(tool.H)
+        return MSG_USERAUTH_REQUEST, make_cell_pk(rng, ident, user, st[1], st[2], st[3], "valid", "base")
     if kind == "none":
         return MSG_USERAUTH_REQUEST, sstr(user) + sstr(svc) + sstr("none")
     if kind == "password":
@@ -714,6 +724,32 @@ MISMATCH_CLASS = {"garbage": "garbage signature", "other_key": "signature made b
 RSA_ALGS = ["ssh-rsa", "rsa-sha2-256", "rsa-sha2-512"]
 
 
+REKEY_SIG_KINDS = ["garbage", "latest_H", "session_id"]
+g2kit_INITIATORS = ("peer", "server_api", "server_threshold")
+
+
+def note_rekey_cell(ctx, label, info, granted, n_newkeys):
+    """re-key before auth x {signature over the session id, over the latest H, garbage} x family: counted when the
+    victim read the request after at least one completed re-key (its second NEWKEYS), the application approved the
+    key and the independent verifier (over the victim's session id) agrees with the cell."""
+    _, kname, base_alg, form, which = label
+    fam = FAMILY[kname]
+    if n_newkeys < 2:
+        ctx.inconclusive("harness: publickey request of a re-key cell read before the re-key completed")
+        return
+    if info.get("cbstate") != "approved":
+        ctx.count("rekeycell_request_read_but_key_not_approved")
+        return
+    valid = bool(info.get("sig_valid"))
+    if valid != (which == "session_id"):
+        ctx.inconclusive("harness: re-key cell %s for %s: independent validity is %s" % (which, base_alg, valid))
+        return
+    ctx.count("rekeycell_%s_%s" % (fam, which))
+    ctx.count("rekeycell_%s_%s" % (which, "granted" if granted else "refused"))
+    if which == "session_id" and granted:
+        ctx.count("rekeycell_%s_session_id_granted" % fam)
+
+
 def note_gss_cell(ctx, desc, label, m, sid, mic_user, granted):
     """{GSS-API enabled, disabled} x {gssapi-with-mic, gssapi-keyex} x {valid, invalid MIC}: counted when the victim
     read the message that carries the MIC and the independent MIC computation agrees with the cell."""
@@ -833,7 +869,10 @@ def analyse(ctx, sess, desc, labels, auth_samples, name_samples=()):
             continue
         ok, info = judge_episode(ctx, ep, sid, gss_enabled=gss_enabled, mic_user=opener_user or last_req_user)
         note_odd_results(ctx, ep, bool(grants))
-        lab0 = labels.get(m["seq"])
+        lab0 = labels.get(("n", m["n"])) if desc.get("rekey") else labels.get(m["seq"])
+        if lab0 and lab0[0] == "pkr" and info.get("kind") == "request" and info.get("method") == "publickey":
+            n_newkeys = len([e for e in sess.att.victim_msgs("in", (21,)) if e["n"] < m["n"]])
+            note_rekey_cell(ctx, lab0, info, bool(grants), n_newkeys)
         if lab0 and lab0[0] == "pkc" and info.get("kind") == "request" and info.get("method") == "publickey":
             note_cell(ctx, lab0, info, bool(grants))
         if desc.get("kind") == "gss-cell" and lab0 and lab0[0] in ("gss_keyex", "gss_mic") and len(lab0) > 1:
@@ -874,7 +913,7 @@ def analyse(ctx, sess, desc, labels, auth_samples, name_samples=()):
         if ok:
             ctx.count("grants_justified", len(grants))
             continue
-        label = labels.get(m["seq"])
+        label = labels.get(("n", m["n"])) if desc.get("rekey") else labels.get(m["seq"])
         wit = dict(session=desc, request=dict(type=m["type"], seq=m["seq"], payload_hex=m["payload"].hex()[:1990]), oracle=info,
                    step=label, callbacks=[dict(name=c["name"], args=c["args"], result=res_name(c["result"])) for c in ep["cbs"]],
                    replies=[o["type"] for o in ep["out"]])
@@ -897,7 +936,11 @@ def analyse(ctx, sess, desc, labels, auth_samples, name_samples=()):
                           "the GSS context rejected (or never saw a valid) MIC, yet the application's approval alone "
                           "produced USERAUTH_SUCCESS", wit)
         elif info.get("method") == "publickey" and info["cbstate"] == "approved":
-            if label and label[0] == "pkc" and label[5].startswith("as:"):
+            if label and label[0] == "pkr":
+                cls = {"latest_H": "signature made over the latest exchange hash instead of the session id",
+                       "garbage": "garbage signature"}.get(label[4], "signature does not verify") + \
+                    " [after a key re-exchange before authentication]"
+            elif label and label[0] == "pkc" and label[5].startswith("as:"):
                 cls = "label names another algorithm than the request, " + MISMATCH_CLASS.get(label[4], "?") + \
                     (" [certificate algorithm]" if label[3] == "cert" else "")
             elif label and label[0] == "pkc":
@@ -951,7 +994,8 @@ def run_session(ctx, rng, desc):
         if pol["kex_ctx"] != "none":
             s.victim.kexgss_ctxt = StubKexCtx()
 
-    sess = started(lambda: Sess(rng, policy=build_policy(pol), users={user: "pw"}, setup=setup),
+    cls = g2kit.RekeySess if desc.get("rekey") else Sess
+    sess = started(lambda: cls(rng, policy=build_policy(pol), users={user: "pw"}, setup=setup),
                    lambda s: s.start(auth=False))
     labels = {}
     samples = []
@@ -972,9 +1016,29 @@ def run_session(ctx, rng, desc):
         for stp in desc["steps"]:
             if not v.is_active():
                 break
+            if stp[0] == "rekey":
+                try:
+                    r = sess.rekey(stp[1])
+                except g2kit.RekeyTrouble as e:
+                    ctx.inconclusive("re-key before auth: %s" % e)
+                    return
+                if r != "done":
+                    ctx.inconclusive("re-key before auth did not complete (%s, victim exc=%r)" % (r, v.saved_exception))
+                    return
+                if bytes(sess.att.att.H) == bytes(v.session_id) or bytes(sess.att.att.H) != bytes(v.H):
+                    ctx.inconclusive("re-key before auth: exchange hash not renewed / not shared")
+                    return
+                ctx.count("rekeys_before_auth_completed_" + stp[1])
+                continue
+            m0 = sess.att.mark()
             ptype, body = step_body(rng, sess, user, stp)
             seq, st = sess.step(ptype, body)
-            if seq is not None:
+            if seq is not None and desc.get("rekey"):
+                # sequence numbers restart at NEWKEYS under strict kex: label by the victim's read event instead
+                e = sess.victim_read_seq(seq, m0)
+                if e is not None:
+                    labels[("n", e["n"])] = list(stp)
+            elif seq is not None:
                 labels[seq] = list(stp)
             ctx.count("steps_sent")
             ctx.count("step_" + (stp[0] if stp[0] != "pk" else "pk_" + stp[3]))
@@ -1100,6 +1164,18 @@ def run(ctx):
                     plan.append(dict(kind="pk-label-mismatch", key=("rsa", req_alg), focus=dict(refuse_rest), first=steps,
                                      no_tail=True, exact=True, shard_key=ci))
                     ci += 1
+    # round 5: one or two key re-exchanges BEFORE authentication, then publickey requests signed over garbage, over
+    # the latest exchange hash, and (genuine) over the session id = the first exchange hash
+    ri = 0
+    for rep in range(cell_reps):
+        for (kname, alg) in KEY_ALGS:
+            for form in ("plain", "cert"):
+                inis = [g2kit_INITIATORS[(ri + ctx.seed) % 3]] + ([g2kit_INITIATORS[(ri // 3 + 1) % 3]] if ri % 2 else [])
+                steps = [("rekey", ini) for ini in inis]
+                steps += [("pkr", kname, alg, form, w) for w in REKEY_SIG_KINDS]
+                plan.append(dict(kind="rekey-before-auth", key=(kname, alg), focus=dict(refuse_rest), first=steps,
+                                 no_tail=True, exact=True, rekey=True, shard_key=ri))
+                ri += 1
     # round 4 (a): {GSS-API enabled, disabled by the application} x {gssapi-with-mic, gssapi-keyex} x MIC kinds; the
     # application's gssapi callbacks would approve, check_auth_none refuses
     gi = 0
@@ -1157,10 +1233,13 @@ def run(ctx):
                     service_request=True if p.get("exact") else rng.random() < 0.93)
         if p.get("odd"):
             desc["odd"] = list(p["odd"])
+        if p.get("rekey"):
+            desc["rekey"] = True
         if shown < 3 and p["kind"] in ("pk-focus", "kbd-rounds-focus", "random"):
             desc["sample"] = True
             shown += 1
-        if p["kind"] in ("pk-cell", "odd-result", "pk-label-mismatch", "gss-cell") and p.get("shard_key") == ctx.shard:
+        if p["kind"] in ("pk-cell", "odd-result", "pk-label-mismatch", "gss-cell", "rekey-before-auth") \
+                and p.get("shard_key") == ctx.shard:
             desc["sample"] = True  # one of each new kind per shard (Ctx keeps at most four)
         ctx.count("sessions")
         try:
@@ -1191,6 +1270,13 @@ def run(ctx):
     ctx.require("pkcell_label_base", 28 * len(CELL_FORGERIES) // 2 * cell_reps)
     ctx.require("pkcell_label_cert", 28 * len(CELL_FORGERIES) // 2 * cell_reps)
     ctx.require("odd_result_cells_evaluated", n_odd_cells)
+    # round 5 floors: every (family, signed-over) cell after a completed re-key; the genuine login granted
+    for fam in FAMILIES:
+        for w in REKEY_SIG_KINDS:
+            ctx.require("rekeycell_%s_%s" % (fam, w), per_family[fam] * cell_reps)
+        ctx.require("rekeycell_%s_session_id_granted" % fam, per_family[fam] * cell_reps)
+    for ini in g2kit_INITIATORS:
+        ctx.require("rekeys_before_auth_completed_" + ini, 3 * cell_reps)
     # round 4 floors
     for form in ("plain", "cert"):
         for f in MISMATCH_KINDS:
